@@ -28,7 +28,7 @@ def ssc_params(sf):
         nk = notes_key(c)
         ps.append(["NOTEDATA", ""])
         ps += [vp(k, v) for k, v in c.items() if k != nk]
-        ps.append([nk, c[nk]])
+        ps.append([nk] if c[nk] is None else [nk, c[nk]])
     return ps
 
 
